@@ -66,8 +66,10 @@ def stored_pressures(press_pa, factor):
     return out
 
 
-def build_store(store, directory, wn, temps, press_pa, table, weights, mode):
-    """-> (opacity object, closer).  table: logical float64 array (P,T,wn) or (P,T,wn,g) in cm^2."""
+def build_store(store, directory, wn, temps, press_pa, table, weights, mode, route=None):
+    """-> (opacity object, closer).  table: logical float64 array (P,T,wn) or (P,T,wn,g) in cm^2.
+    route: for the cache holders, the steps (spec/ModeRoute.tla) through which `mode` reaches the served table;
+    None = set_interpolation(mode) before the first load."""
     layout, holder, dtype = store['layout'], store['holder'], store['dtype']
     arr = as_order(np.asarray(table, dtype=np.float64).astype(NP_DTYPE[dtype]), store['order'])
     if arr.dtype != NP_DTYPE[dtype]:
@@ -98,7 +100,21 @@ def build_store(store, directory, wn, temps, press_pa, table, weights, mode):
                 return PickleOpacity(fn, interpolation_mode=mode), None
             from taurex.opacity.ktables.picklektable import PickleKTable
             return PickleKTable(fn, interpolation_mode=mode), None
-        return _from_cache(directory, name, mode), None
+        return _from_cache(directory, name, mode, layout, route), None
+    if holder == 'cache_exotransmit':
+        # Exo-Transmit text table opac<mol>.dat: temperatures, pressures (bar), then per wavelength (m, ascending) the
+        # wavelength and one line per pressure: pressure, cross-sections (m^2) per temperature; shortest round-trip decimals
+        if layout != 'xsec' or not arr.flags['C_CONTIGUOUS']:
+            raise Machinery('Exo-Transmit tables hold C-ordered cross-sections')
+        pbar = stored_pressures(press_pa, 1e5)
+        lines = [' '.join(repr(float(t)) for t in temps), ' '.join(repr(float(p)) for p in pbar)]
+        for k in range(len(wn) - 1, -1, -1):
+            lines.append(repr(float(0.01 / wn[k])))
+            for ip in range(len(pbar)):
+                lines.append(' '.join([repr(float(pbar[ip]))] + [repr(float(arr[ip, it, k]) / 1e4) for it in range(len(temps))]))
+        with open(os.path.join(directory, 'opac%s.dat' % name), 'w') as f:
+            f.write('\n'.join(lines) + '\n')
+        return _from_cache(directory, name, mode, layout, route), None
     if holder in ('hdf5_stream', 'hdf5_memory', 'cache_hdf5'):
         import h5py
         if not arr.flags['C_CONTIGUOUS']:
@@ -121,7 +137,7 @@ def build_store(store, directory, wn, temps, press_pa, table, weights, mode):
             if f['xsecarr' if layout == 'xsec' else 'kcoeff'].dtype != NP_DTYPE[dtype]:
                 raise Machinery('HDF5 dataset lost its element type')
         if holder == 'cache_hdf5':
-            return _from_cache(directory, name, mode), None
+            return _from_cache(directory, name, mode, layout, route), None
         mem = holder == 'hdf5_memory'
         if layout == 'xsec':
             from taurex.opacity.hdf5opacity import HDF5Opacity
@@ -139,9 +155,35 @@ def build_store(store, directory, wn, temps, press_pa, table, weights, mode):
     raise Machinery('unknown holder %r' % holder)
 
 
-def _from_cache(directory, name, mode):
-    from taurex.cache import OpacityCache
+def _from_cache(directory, name, mode, layout='xsec', route=None):
+    """The object the cache of the layout (OpacityCache / KTableCache; readers found by discover()) serves for `name`
+    after the steps of `route` were executed on a process in which no mode was ever set."""
+    from taurex.cache import OpacityCache, GlobalCache
+    from taurex.cache.ktablecache import KTableCache
+    if route is None:
+        route = [dict(op='set', m=mode), dict(op='load', m='')]
+    if route[-1]['op'] != 'load':
+        raise Machinery('a mode route ends in a load')
+    GlobalCache()['xsec_interpolation'] = None
     OpacityCache().clear_cache()
-    OpacityCache().set_opacity_path(directory)
-    OpacityCache().set_interpolation(mode)
-    return OpacityCache()[name]
+    KTableCache().clear_cache()
+    if layout == 'xsec':
+        OpacityCache().set_opacity_path(directory)
+        cache = OpacityCache()
+    else:
+        KTableCache().set_ktable_path(directory)
+        cache = KTableCache()
+    op = None
+    for st in route:
+        if st['op'] == 'set':
+            OpacityCache().set_interpolation(st['m'])
+        elif st['op'] == 'glob':
+            GlobalCache()['xsec_interpolation'] = st['m']
+            OpacityCache().clear_cache()
+            KTableCache().clear_cache()
+        elif st['op'] == 'load':
+            op = cache[name]
+            op.opacity(float(op.temperatureGrid[0]) + 1.0, float(op.pressureGrid[0]) * 2.0)      # the table is used
+        else:
+            raise Machinery('unknown route step %r' % (st,))
+    return op
